@@ -730,6 +730,16 @@ example : (⟨136, 16⟩ : Region).disjoint ⟨0, 24⟩ := by
     2 3 [⟨.obj 11, ⟨136, 16⟩⟩, ⟨.buf 2, ⟨152, 104⟩⟩] exOps_valid.2.2.2.1
   exact h.1 ⟨.obj 11, ⟨136, 16⟩⟩ (by simp)
 
+/-- the guard is not decoration: a thread that carves an object out of ANOTHER thread's buffer
+(forbidden by `Guard`: source must be `free` or `buf t` of the same `t`) can produce overlapping
+objects — thread 2 allocates `[24,40)` in thread 1's buffer, then thread 1 bump-allocates the same
+bytes. -/
+example :
+    let st := run exBoot (exOps.take 2)
+    let bad := apply (apply st (.carve 2 1 [⟨.obj 66, ⟨24, 16⟩⟩])) (.carve 1 1 [⟨.obj 67, ⟨24, 16⟩⟩])
+    ¬ (⟨24, 16⟩ : Region).disjoint ⟨24, 16⟩ ∧ (⟨.obj 66, ⟨24, 16⟩⟩ : Entry) ∈ (apply st (.carve 2 1 [⟨.obj 66, ⟨24, 16⟩⟩])).mem ∧
+    bad.mem.length = 4 := by decide
+
 /-- Immix hole search on a block of 8 lines, lines 0,1,4 in use: holes `[2,4)` then `[5,8)` -/
 example :
     let lf : Nat → Bool := fun k => k != 0 && k != 1 && k != 4
